@@ -287,6 +287,19 @@ Example ex_encoder_file :
   | None => False end.
 Proof. vm_compute. reflexivity. Qed.
 
+(* C14 at file level: provisional header (STREAMINFO with the declared or zero total, any further blocks), complete
+   frames, then a frame cut at any byte: the file still opens and yields exactly the complete frames *)
+Theorem C14_interrupted_file : forall si others fs allb g gb m,
+  si_ok si -> blocks_ok others ->
+  Forall (frame_ok si) fs -> frames_bytes fs = Some allb ->
+  frame_ok si g -> write_frame g = Some gb -> (m < length gb)%nat ->
+  (si_total si = 0 \/ total_samples fs + h_bs (f_hdr g) <= si_total si) ->
+  match dec_stream (file_of si others (allb ++ firstn m gb)) with
+  | Some (si', out, e) => si' = si /\ out = map (fun f => interleave_frame (sem_frame f)) fs /\ is_end_panic e = false
+  | None => False
+  end.
+Proof. exact interrupted_file. Qed.
+
 (* non-vacuity: a concrete well-formed frame (16-bit mono, 4 samples, FIXED order 1, one Rice partition) *)
 Definition ex_hdr : header := {| h_variable := false; h_bs_code := 6; h_bs := 4; h_rate_code := 9; h_rate := 44100;
   h_assign := 0; h_bps_code := 4; h_bps := 16; h_number := 0 |}.
